@@ -25,6 +25,8 @@ static CREATED: AtomicU64 = AtomicU64::new(0);
 /// 0: nodes never had a Weak; 1: every node was downgraded once (the Weak is gone again, the
 /// WEAKED flag stays); 2: every other node
 static WEAKED: AtomicU64 = AtomicU64::new(0);
+/// user tag carried by every link of the structure (0 = none)
+static LINK_TAG: AtomicU64 = AtomicU64::new(0);
 
 /// `W` words of inline payload (0, or 128 = 1 KiB: the payload must not end up on the stack of
 /// the recursive destructor)
@@ -181,6 +183,15 @@ pub fn gen(prop: &str, seed: u64, stack: bool) -> RunDesc {
     // stack runs: a quarter drop the last reference from a thread-local destructor of another
     // thread (same stack size), after that thread's participant handle is gone
     let drop_in_tls: u64 = (stack && rng.chance(0.25)) as u64;
+    // links that carry a user tag (marked nodes of a Harris list)
+    let link_tag: u64 = if rng.chance(0.2) { *rng.pick(&[1u64, 3, 7]) } else { 0 };
+    // noise threads that only advance the clock (never flush, so they never run a cascade and
+    // never hold a bag). Latency is not judged then either: with a clock driven by others the
+    // 4-bit stamps of the nodes still to come age past the unambiguous window in mid-cascade and
+    // the cascade re-defers (measured on the unchanged tree: up to 108 collection rounds for a
+    // 1 022-node comb), so neither advances nor rounds have a bound that is independent of how
+    // fast the others tick. Gratuitous deferrals are judged node by node by the C12 oracle.
+    let advancers_only = noise > 0 && rng.chance(0.5);
     let stack_kib: u64 = if stack { *rng.pick(&[64u64, 128, 256, 512, 1024, 2048, 2048, 8192]) } else { 2048 };
     let profile = if stack && rng.chance(0.35) { "dev" } else { "sim" };
     cfg.step_cap = 2_000_000 + 60 * n;
@@ -194,6 +205,8 @@ pub fn gen(prop: &str, seed: u64, stack: bool) -> RunDesc {
         .set("weaked_nodes", weaked)
         .set("payload_words", payload_words)
         .set("drop_in_tls", drop_in_tls)
+        .set("link_tag", link_tag)
+        .set("noise_only_advances", advancers_only)
         .set("stack_kib", stack_kib)
         .set("profile", profile)
         .set("stack_check", stack)
@@ -202,7 +215,15 @@ pub fn gen(prop: &str, seed: u64, stack: bool) -> RunDesc {
     threads[0].name = "destroyer".into();
     threads[0].stack_kib = stack_kib as u32;
     for _ in 0..noise {
-        let mut t = ThreadProg::new(0, crate::gen::ticker_ops(3 + rng.below(10) as usize));
+        let mut t = if advancers_only {
+            let mut ops = Vec::new();
+            for _ in 0..40 + rng.below(160) {
+                ops.extend([op(K::Pin, 0, 0, 0, 0), op(K::TryAdvance, 0, 0, 0, 0), op(K::Unpin, 0, 0, 0, 0)]);
+            }
+            ThreadProg::new(0, ops)
+        } else {
+            ThreadProg::new(0, crate::gen::ticker_ops(3 + rng.below(10) as usize))
+        };
         t.name = "noise".into();
         threads.push(t);
     }
@@ -223,6 +244,8 @@ fn link<const W: usize>(parent: &Rc<CNode<W>>, i: usize, child: Rc<CNode<W>>, wr
 }
 
 fn node<const W: usize>(id: u64, c0: Rc<CNode<W>>, c1: Rc<CNode<W>>, writer: u64) -> Rc<CNode<W>> {
+    let t = LINK_TAG.load(Relaxed) as usize;
+    let (c0, c1) = if t != 0 { (if c0.is_null() { c0 } else { c0.with_tag(t) }, if c1.is_null() { c1 } else { c1.with_tag(t) }) } else { (c0, c1) };
     let r = node_inner(id, c0, c1, writer);
     let w = WEAKED.load(Relaxed);
     if w == 1 || (w == 2 && id % 2 == 0) {
@@ -425,6 +448,7 @@ fn destroyer<const W: usize>(desc: &RunDesc, out: &mut Vec<(String, String)>, fa
     let hold_at = p.geti("hold_at");
     WEAKED.store(p.getu("weaked_nodes"), Relaxed);
     DROP_IN_TLS.store(p.getu("drop_in_tls"), Relaxed);
+    LINK_TAG.store(p.getu("link_tag"), Relaxed);
     let stack_check = p.getb("stack_check");
     // With other threads around, a cascade may run on (and re-defer into the local bag of) a
     // thread that is then not scheduled for a long time; reclamation latency is then the
@@ -586,6 +610,11 @@ pub fn run(desc: &RunDesc) -> ! {
                             }
                         }
                         K::Unpin => g = None,
+                        K::TryAdvance => {
+                            if let Some(g) = &g {
+                                circ::verif::try_advance(g);
+                            }
+                        }
                         _ => {}
                     }
                 }
